@@ -10,7 +10,7 @@ Theorem all_agree_on_error r1 r2 : exit_status r1 VmError = exit_status r2 VmErr
 Proof. destruct r1, r2; reflexivity. Qed.
 
 Theorem all_agree_on_non_int r1 r2 v : exit_status r1 (VmOk false v) = exit_status r2 (VmOk false v).
-Proof. destruct r1, r2; unfold exit_status, main_return, propagate; destruct nano_vm_propagates_result; reflexivity. Qed.
+Proof. destruct r1, r2; unfold exit_status, main_return, propagate; destruct nano_vm_propagates_result, daemon_propagates_result; reflexivity. Qed.
 
 Lemma to_int32_mod256 v : to_int32 v mod 256 = v mod 256.
 Proof.
@@ -30,7 +30,7 @@ Theorem all_agree_mult256 r1 r2 v : v mod 256 = 0 -> exit_status r1 (VmOk true v
 Proof.
   intros H. assert (E : forall r, exit_status r (VmOk true v) = 0).
   { intros r. destruct r; unfold exit_status, main_return, propagate; try destruct nano_vm_propagates_result;
-      try reflexivity; rewrite to_int32_mod256; exact H. }
+      try destruct daemon_propagates_result; try reflexivity; rewrite ?Z.mod_mod by discriminate; rewrite to_int32_mod256; exact H. }
   rewrite !E. reflexivity.
 Qed.
 
@@ -62,9 +62,27 @@ Proof.
         | intros v H; rewrite virt_status_is_low_byte; unfold exit_status, main_return; rewrite P; exact H ].
 Qed.
 
-(* the daemon client never reports main's value (outside C10's three runners; see C17) *)
-Theorem daemon_drops_result v : v mod 256 <> 0 -> exit_status VirtRun (VmOk true v) <> exit_status DaemonClient (VmOk true v).
-Proof. intros H. rewrite virt_status_is_low_byte. exact H. Qed.
+(* the daemon client: reports main's value iff client_thread consults it *)
+Theorem daemon_drops_result : daemon_propagates_result = false ->
+  forall v, v mod 256 <> 0 -> exit_status VirtRun (VmOk true v) <> exit_status DaemonClient (VmOk true v).
+Proof.
+  intros P.
+  first [ unfold daemon_propagates_result in P; discriminate P
+        | intros v H; rewrite virt_status_is_low_byte; unfold exit_status, main_return; rewrite P; exact H ].
+Qed.
+
+Theorem runners_agree_all : nano_vm_propagates_result = true -> daemon_propagates_result = true ->
+  forall r1 r2 o, exit_status r1 o = exit_status r2 o.
+Proof.
+  intros P Q.
+  first [ unfold nano_vm_propagates_result in P; discriminate P
+        | unfold daemon_propagates_result in Q; discriminate Q
+        | intros r1 r2 o;
+          assert (E : forall r, exit_status r o = exit_status VirtRun o);
+          [ intros r; destruct r, o; unfold exit_status, main_return; rewrite ?P, ?Q; try reflexivity;
+            rewrite Z.mod_mod by discriminate; reflexivity
+          | rewrite (E r1), (E r2); reflexivity ] ].
+Qed.
 
 (* global initialisers *)
 Theorem init_once : wrapper_calls_init = false -> forall r, init_runs r = 1%nat.
